@@ -1,6 +1,6 @@
 """C05 - equality and ordering operators form one consistent partial order."""
 import copy
-from lib import driver as D
+from lib import driver as D, machine as M
 
 MUTANTS = ["cmpFirstPairOnly", "ignoreOffset", "msIsPrecision", "intDecimalNoPromote"]
 
@@ -36,6 +36,8 @@ def run(ctx):
         else:
             keys.append(("coll", c["op"], tuple(c["l"]), tuple(c["r"])))
     ctx.extra["skipped_unrepresentable_forms"] = skipped
+    # programs of the whole abstract machine whose last step is one of this property's operations (lib/machine.py)
+    verdicts = M.extend(ctx, verdicts, by_id)
     return D.finish(ctx, [v for v in verdicts if not v.get("skipped")], by_id, evaluations=len(obs) - skipped,
                     rule="all ordered pairs of the 82-value pool (plus the empty operand) x six operators as literals, plus one rotating "
                          "environment-variable / FHIR-element form combination per pair; collection cases = variants of 12 base "
